@@ -128,19 +128,23 @@ recomposition function maps a contiguous segment list to a contiguous one lying 
 input (`ComposeGeoSpec`), every finite sequence of API calls from a session without segments leaves a
 composition whose segments tile a prefix of the composition's input: the first starts at 0, each starts
 where the previous one ends, `start ≤ end` for each, every candidate of a segment's menu ends at or after
-the segment's start, and every `end` is at most the length of the composition's input. -/
-theorem geometry_reachable (env : Env) (hrc : ComposeGeoSpec env.recompose) (c0 : Ctx)
+the segment's start, and every `end` is at most the length of the composition's input.
+`NoPrevMatch env` (auto_select off, or a max_code_length set) restricts the theorem to schemas on which
+Speller::AutoSelectPreviousMatch returns at once; for auto_select schemas without a code-length bound the
+statement is NOT proved (see `NoPrevMatch`: the function pushes back a copied segment without comparing
+positions) — those are covered by the differential runs only. -/
+theorem geometry_reachable (env : Env) (hrc : ComposeGeoSpec env.recompose) (hnp : NoPrevMatch env) (c0 : Ctx)
     (h0 : c0.comp.segs = []) (ops : List Op) : GeoInv (runOps env c0 ops) :=
-  runOps_geo hrc ops (geoInv_of_no_segs h0)
+  runOps_geo hrc hnp ops (geoInv_of_no_segs h0)
 
 /-- **the same for the modelled engine**: `ComposeGeoSpec` is discharged for the concrete port of
 `ConcreteEngine::Compose` (Reset, abc + fallback segmentors, TranslateSegments) with any alphabets and any
 translation oracle satisfying `TranslateGeo` (candidates produced for a segment with `start ≤ end` end at or
 after the segment's start — an ASSUMPTION about the translators, which are outside the model). -/
 theorem geometry_reachable_concrete (env : Env) (cfg : SegCfg) (henv : env.recompose = compose cfg)
-    (htr : TranslateGeo cfg) (c0 : Ctx) (h0 : c0.comp.segs = []) (ops : List Op) :
+    (htr : TranslateGeo cfg) (hnp : NoPrevMatch env) (c0 : Ctx) (h0 : c0.comp.segs = []) (ops : List Op) :
     GeoInv (runOps env c0 ops) :=
-  geometry_reachable env (by rw [henv]; exact compose_geo_spec cfg htr) c0 h0 ops
+  geometry_reachable env (by rw [henv]; exact compose_geo_spec cfg htr) hnp c0 h0 ops
 
 /-- **every `input_.substr(seg.start, seg.end - seg.start)` is in range** (Composition::GetCommitText /
 GetPreedit / GetScriptText / GetDebugText, ConcreteEngine::TranslateSegments).  In every reachable state, for
@@ -148,14 +152,14 @@ the segment `g` at any index `i` of the composition: `g.start ≤ g.end ≤ |com
 g.start` meets `std::string::substr`'s precondition `pos ≤ size()`, the count `g.end - g.start` does not wrap
 around, and the slice is not clipped (it has exactly `g.end - g.start` bytes); the first segment starts at 0
 and the next segment, if any, starts at `g.end`. -/
-theorem substr_in_range (env : Env) (hrc : ComposeGeoSpec env.recompose) (c0 : Ctx)
+theorem substr_in_range (env : Env) (hrc : ComposeGeoSpec env.recompose) (hnp : NoPrevMatch env) (c0 : Ctx)
     (h0 : c0.comp.segs = []) (ops : List Op) (i : Nat) (g : Seg)
     (hg : (runOps env c0 ops).comp.segs[i]? = some g) :
     let c := runOps env c0 ops
     g.start ≤ g.stop ∧ g.stop ≤ c.comp.input.length ∧
       (substr c.comp.input g.start (g.stop - g.start)).length = g.stop - g.start ∧
       (i = 0 → g.start = 0) ∧ (∀ g', c.comp.segs[i + 1]? = some g' → g'.start = g.stop) := by
-  have hinv := geometry_reachable env hrc c0 h0 ops
+  have hinv := geometry_reachable env hrc hnp c0 h0 ops
   generalize runOps env c0 ops = c at hinv hg
   have hmem : g ∈ c.comp.segs := List.mem_of_getElem? hg
   have h1 := (hinv.geo.seg hmem).1
@@ -173,11 +177,11 @@ theorem substr_in_range (env : Env) (hrc : ComposeGeoSpec env.recompose) (c0 : C
 /-- **the segments tile the input**: in every reachable state the slices `substr(seg.start, seg.end -
 seg.start)` of the segments, concatenated in order, are exactly the composition's input up to the last
 segment's end (nothing skipped, nothing read twice) -/
-theorem slices_tile_input (env : Env) (hrc : ComposeGeoSpec env.recompose) (c0 : Ctx)
+theorem slices_tile_input (env : Env) (hrc : ComposeGeoSpec env.recompose) (hnp : NoPrevMatch env) (c0 : Ctx)
     (h0 : c0.comp.segs = []) (ops : List Op) :
     let c := runOps env c0 ops
     (c.comp.segs.map (Seg.slice c.comp.input)).flatten = c.comp.input.take c.comp.currentEnd :=
-  slices_flatten _ (geometry_reachable env hrc c0 h0 ops).geo
+  slices_flatten _ (geometry_reachable env hrc hnp c0 h0 ops).geo
 
 /-- **the `while (!segments->HasFinishedSegmentation())` loop of CalculateSegmentation terminates.**
 `LoopRun cfg caret c r` is the loop's big-step semantics without fuel (it holds iff the loop, started on
@@ -217,12 +221,12 @@ theorem compose_loop_terminates (cfg : SegCfg) (input : Bytes) (caret : Nat) (c 
 /-- the loop in every reachable state: whatever the client does next, the composition of a reachable state is
 a legal starting point of `compose_loop_terminates` -/
 theorem reachable_loop_terminates (env : Env) (cfg : SegCfg) (henv : env.recompose = compose cfg)
-    (htr : TranslateGeo cfg) (c0 : Ctx) (h0 : c0.comp.segs = []) (ops : List Op) (input : Bytes) (caret : Nat) :
+    (htr : TranslateGeo cfg) (hnp : NoPrevMatch env) (c0 : Ctx) (h0 : c0.comp.segs = []) (ops : List Op) (input : Bytes) (caret : Nat) :
     let c2 := resetStage input caret (runOps env c0 ops).comp
     LoopRun cfg caret c2 (segLoop cfg caret (c2.input.length + 2) c2) ∧
       ∀ k, segLoop cfg caret (c2.input.length + 2 + k) c2 = segLoop cfg caret (c2.input.length + 2) c2 :=
   let hc := compose_loop_terminates cfg input caret (runOps env c0 ops).comp
-    (geometry_reachable_concrete env cfg henv htr c0 h0 ops).geo
+    (geometry_reachable_concrete env cfg henv htr hnp c0 h0 ops).geo
   ⟨hc.2.2.2.1, hc.2.2.2.2⟩
 
 /-- non-vacuity of `GeoOK` / `Bounded`: a two-segment composition over `abc`, the first segment carrying a
